@@ -46,6 +46,8 @@ def numpy_claim(shape, s, up):
             F_ref, F_im = _spectra(I, shape, s)
             got = iu.cross_correlation_shift(F_ref, F_im, upsample_factor=up, fft_input=True)
             back = iu.cross_correlation_shift(F_im, F_ref, upsample_factor=up, fft_input=True)
+            # a series registered against one precomputed reference spectrum (drift.py does that): the same arrays again
+            again = iu.cross_correlation_shift(F_ref, F_im, upsample_factor=up, fft_input=True) if up <= 4 else None
             want = _wrap(s, shape)
             half = [abs(abs(w) - shape[i] / 2) < 1e-9 for i, w in enumerate(want)]
             rels = []
@@ -54,6 +56,8 @@ def numpy_claim(shape, s, up):
                     continue                          # a shift of exactly half the cell: +N/2 and -N/2 are the same translation
                 rels.append(Rel("returns_the_applied_shift", got[i], want[i], tol=1e-6, ntol=1e-6))
                 rels.append(Rel("swapping_the_images_negates_the_shift", back[i], -want[i], tol=1e-6, ntol=1e-6))
+                if again is not None:
+                    rels.append(Rel("registering_the_same_arrays_again_returns_the_applied_shift", again[i], want[i], tol=1e-6, ntol=1e-6))
             return rels
     return claim
 
@@ -91,11 +95,14 @@ def cases(tier):
         shapes[(4, 4)] += [(2, 1), (0, 3), (-1, -1), (3, 3), (1, 1)]
         shapes[(4, 2)] += [(1, 0), (-1, 0), (3, 1)]
         shapes[(2, 4)] += [(1, 0), (1, 1), (0, 3), (1, -1)]
-    ups = (1, 2, 4)          # 3 and 8 did not finish (the checked argmax is not unique on their upsampling grids and forking explodes)
+    # the upsampled patch has (2*ceil(1.5*up)+1)^2 entries and the checked argmax compares all of them: the NumPy estimator on
+    # 4x4 with a non-zero shift does not finish for up >= 7 (hard time limit), those cases are left out and stated
+    ups = (1, 2, 3, 4, 8) if quick else (1, 2, 3, 4, 7, 8)
     for shape, shifts in shapes.items():
         for s in shifts:
             for up in ups:
-                out.append((f"numpy[{shape};shift={s};up={up}]", numpy_claim(shape, s, up), dict(logic=None)))
+                if not (up >= 7 and shape == (4, 4) and s != (0, 0)):
+                    out.append((f"numpy[{shape};shift={s};up={up}]", numpy_claim(shape, s, up), dict(logic=None)))
                 out.append((f"torch[{shape};shift={s};up={up}]", torch_claim(shape, s, up), dict(logic=None)))
     return out
 
@@ -108,11 +115,11 @@ def run(check, tier):
     check.add_functions("imaging_utils.cross_correlation_shift", "dft_upsample", "align_images_fourier_torch", "upsampled_correlation_torch",
                         "dftUpsample_torch")
     check.bounds.update(shapes="4x4, 4x2, 2x4 (exact DFT lengths; non-square included)", shifts="integer shifts anywhere in the cell incl. beyond half the size and (0, 0)",
-                        upsample_factors="1, 2, 4", symbolic="all spectral magnitudes p_k in [0.1, 1]")
+                        upsample_factors="1, 2, 3, 4, 8 (thorough: also 7); NumPy estimator on 4x4 with up >= 7: zero shift only", symbolic="all spectral magnitudes p_k in [0.1, 1]")
     check.assumptions += ["restricted input family (delta image, reference = magnitudes p_k with a linear phase ramp) given in Fourier space",
                           "every argmax comparison / floor / round / mod is decided uniquely by the solver on the path (otherwise inconclusive)",
                           "real arithmetic; non-exact DFT lengths and upsampling kernels use float64 constants, claims asked with tolerance 1e-6"]
     check.outside += ["arbitrary image content", "sub-pixel shifts and the 'within one upsampled pixel' accuracy clause", "max_shift",
-                      "return_shifted_image", "upsampling 16-64", "shifts of exactly half the cell (sign ambiguous)", "image sizes other than 2 and 4 per axis (the estimator's data-dependent rounding is not determined under the float-constant DFT model)"]
+                      "return_shifted_image", "upsampling factors other than 1, 2, 3, 4, 7, 8", "NumPy estimator, 4x4, non-zero shift, upsampling 7 or 8 (does not finish)", "shifts of exactly half the cell (sign ambiguous)", "image sizes other than 2 and 4 per axis (the estimator's data-dependent rounding is not determined under the float-constant DFT model)"]
     decide_many(check, [(n, c, dict(o, key=n.split("[")[0])) for n, c, o in cases(tier)],
                 timeout_s=120 if tier == "quick" else 600, validate=1, max_paths=8, decide_logic="QF_LRA", hard_timeout_s=200)
